@@ -95,6 +95,8 @@ PROPS = {
         design="3/C07"),
     "C08": dict(
         engine="histsim", profile="C08", builds=["dbg", "rwdi"], level="exploration",
+        parts=[dict(engine="histsim", profile="C08", builds=["dbg", "rwdi"], weight=2.0),
+               dict(engine="compsim", profile="C08", builds=["dbg", "rwdi"], weight=1.0)],
         quick_s=40, thorough_s=600,
         technique="deterministic simulation: sibling allocators on adjacently packed upstream blocks; "
                   "ownership oracle for try_deallocate",
@@ -103,6 +105,44 @@ PROPS = {
              "(Fallback-allocator routing is checked by compsim, see C08 there.)",
         note="Siblings are of the same type with independent parameters; ownership tests are address based.",
         design="3/C08"),
+    "C09": dict(
+        engine="compsim", profile="C09", builds=["dbg", "rwdi"], level="exploration",
+        parts=[dict(engine="compsim", profile="C09", builds=["dbg", "rwdi"], weight=2.0),
+               dict(engine="compsim", profile="C09S", builds=["dbg", "rwdi"], weight=1.0)],
+        quick_s=40, thorough_s=600, rule='each run = one plan drawn from a 63-bit seed (composition / helper, leaf limits and budgets, thresholds, request shapes, leaf or constructor failures attached to operations), executed against the real adapter templates over logging leaf allocators; distinct = distinct run hash (op outcomes, returned offsets, leaf ledger); non-trivial = at least one release through the composition and (a request served by a non-first leaf or at least 4 operations)',
+        stubs=["logging leaf RawAllocators (with/without array members, composable or not, stateful or "
+               "stateless, budgets, failure at the k-th call) over SimHeap", "recording Tracker",
+               "instrumented element types"],
+        technique="deterministic simulation: request histories through 40+ adapter compositions (depth <= 3) "
+                  "over logging leaves with leaf failure injection; per-call forwarding oracle on the leaf log",
+        text="Every wrapper/storage class and the deleters / smart pointer helpers are instantiated over "
+             "logging leaves; each call through a composition must reach the leaves as exactly one served "
+             "request of at least the requested size and alignment, each release must reach the same leaf "
+             "once with the kind/count/size/alignment that request had; tracker events exactly once per "
+             "successful operation; under injected leaf failures nothing a leaf served may be lost.",
+        note="A member that does not compile cannot be driven: compositions are a fixed compile-time list; "
+             "instantiating every forwarding member is part of the build of the check.",
+        design="3/C09"),
+    "C20": dict(
+        engine="compsim", profile="C20", builds=["dbg", "rwdi"], level="fault_enumeration",
+        quick_s=35, thorough_s=600, rule='each run = one plan drawn from a 63-bit seed (composition / helper, leaf limits and budgets, thresholds, request shapes, leaf or constructor failures attached to operations), executed against the real adapter templates over logging leaf allocators; distinct = distinct run hash (op outcomes, returned offsets, leaf ledger); non-trivial = at least one release through the composition and (a request served by a non-first leaf or at least 4 operations)',
+        stubs=["instrumented element types throwing from the k-th construction", "logging leaf RawAllocators "
+               "over SimHeap (real memory_pool and memory_stack are also used as allocators)"],
+        exhaustive_subspaces="helper {allocate_unique<T>, allocate_unique<T[]>, allocate_shared<T>} x element "
+                             "type (3) x allocator (5: leaf with/without array members, any_allocator, real "
+                             "memory_pool, real memory_stack) x length 1..16 x failure index 0..length+1, plus "
+                             "polymorphic deleter small/large x {0,1}: enumerated completely by the 'sweep' op "
+                             "(every 64th seed)",
+        technique="deterministic simulation with fault injection: constructor failure at every element index "
+                  "(complete table) for every object-creating helper, construct/destruct ledger + allocator "
+                  "ledger oracle",
+        text="An instrumented element type throws from the k-th construction; for every helper, length and "
+             "k the live-object ledger must return to its value before the call, the memory must be given "
+             "back with matching parameters, the injected exception must arrive unchanged, and later requests "
+             "must still be served; on success each element is constructed once and destroyed once with the "
+             "owner. joint_ptr/joint_array forms are covered by the C11 engine part of this check.",
+        note="Length 0 arrays are not requested (array count must be valid, i.e. non-zero).",
+        design="3/C20"),
     "C12": dict(
         engine="histsim", profile="C12", builds=["dbg", "rwdi", "rel"], level="exploration",
         quick_s=50, thorough_s=600,
@@ -162,6 +202,8 @@ NOT_APPLICABLE = {
 HOOK_COMMITS = []
 
 ENGINE_TEXT = {
+    "compsim": "single-task deterministic simulator for adapter compositions, smart pointer helpers, joint "
+               "allocations and STL containers over logging leaf allocators and instrumented element types",
     "histsim": "single-task deterministic simulator: seeded operation/fault plans executed against real library "
                "allocators over a simulated upstream (SimHeap) with a shadow model; plans are replayable and "
                "minimised by ddmin",
